@@ -884,6 +884,19 @@ impl<C: CellType> OptRebuild<'_, C> {
                 self.emit(var);
                 self.read(var);
             }
+            // A cell that keeps its value over the block may still be stored to by
+            // it. If its value is only pending here, memory does change, so what
+            // is pending for it (and everything reading the old memory) goes first.
+            let mut rewritten = sub_state
+                .written
+                .keys()
+                .copied()
+                .filter(|var| constant.contains(var))
+                .collect::<Vec<_>>();
+            rewritten.sort();
+            for var in rewritten {
+                self.emit(var);
+            }
             for (&var, _) in &sub_state.written {
                 if !constant.contains(&var) {
                     clobbered.insert(var);
